@@ -422,3 +422,7 @@ Qed.
 End HHF.
 
 End Stream.
+
+Arguments kill {hstate}.
+Arguments tail {hstate}.
+Arguments ready {hstate}.
